@@ -58,6 +58,12 @@ pub open spec fn buckets_wf(w: World) -> bool {
     forall|i: u32| (#[trigger] bucket_of(w, i)).is_some() ==> bucket_of(w, i).unwrap().len() == 100
 }
 
+/// every stored bucket has at most ITEMS_IN_BUCKET items (so an item index never reaches into the id range of the
+/// next bucket) — the domain on which the `@trusted` contract of `owner_of` is stated; implied by `buckets_wf`
+pub open spec fn buckets_le(w: World) -> bool {
+    forall|i: u32| (#[trigger] bucket_of(w, i)).is_some() ==> bucket_of(w, i).unwrap().len() <= 100
+}
+
 // ---- specification of the search functions (the two `@trusted` contracts; discharged by Kani, bounded) ----
 /// `find_bit_in_item`: first position p >= start (MSB-first) whose bit is set
 pub open spec fn fbi(num: u32, start: int) -> Option<int>
@@ -129,7 +135,7 @@ pub open spec fn cupdate_guard(w: World, from: Option<Address>, to: Option<Addre
     let w1 = cupd_mid(w, from, id);
     &&& from.is_some() ==> {
         &&& id < counter(w) && !is_burned(w, id)
-        &&& buckets_wf(w) ==> cowner(w, id) == from
+        &&& buckets_le(w) ==> cowner(w, id) == from
         &&& bal(w, from.unwrap()) >= 1
         &&& prev_guard(tdel(dec_bal_post(w, from.unwrap(), 1), ck_appr(id)), from.unwrap(), id)
     }
@@ -175,7 +181,7 @@ pub open spec fn cop_guard(w: World, op: COp) -> bool {
         COp::Approve { approver, approved, id, live } => {
             let wa = w_auth(w, approver);
             &&& id < counter(w) && !is_burned(w, id)
-            &&& buckets_wf(wa) ==> cowner(wa, id).is_some() && approve_owner_guard(wa, cowner(wa, id).unwrap(), approver, live)
+            &&& buckets_le(wa) ==> cowner(wa, id).is_some() && approve_owner_guard(wa, cowner(wa, id).unwrap(), approver, live)
             &&& live_guard(w, live)
         }
         COp::ApproveForAll { owner, operator, live } => live_guard(w, live),
